@@ -26,6 +26,8 @@ M = "partitura.utils.music"
 
 
 def run(ctx):
+    from ..rules import extra as _X4
+    _X4.rule_unison_shortcut_in_transpose_note(ctx)
     prog = ctx.prog
     OW.rule_F1(ctx, [(f"{M}:transpose", ["score"])], "transpose")
     O = ownership(ctx, watch=("_transpose_note_inplace",))
